@@ -186,6 +186,13 @@ void ds_sub_wsd(void) {
     int thieves = fixed_thieves >= 0 ? fixed_thieves : (int)(vp_rand(&rng) % (unsigned)ds_nworkers);
     if (thieves > ds_nworkers - 1) thieves = ds_nworkers - 1;
     dq = wsd_work_stealing_deque_create();
+    if (vp_rand(&rng) & 1) {
+      // indices start just below 2^32: crossing it must be a non-event for 64-bit top/bottom
+      const int64_t start = 0x100000000LL - 64 - (int64_t)(vp_rand(&rng) % 512);
+      dq->top = start;
+      dq->bottom = start;
+      vp_count("wsd_rounds_crossing_2pow32", 1);
+    }
     memset((void*)taken, 0, max_vals);
     memset(steal_inv, 0, max_vals * sizeof(uint64_t));
     next_seq = 0;
